@@ -907,8 +907,12 @@ func ruleC19Footnotes(c *Ctx) {
 	// number = len(X) + 1 with X the index map, or the footnote list before the append
 	okNum := false
 	if bo, ok := c.resolve(mapUpd.Value).(*ssa.BinOp); ok && bo.Op == token.ADD {
-		if k, ok := constInt(bo.Y); ok && k == 1 {
-			if l, ok := bo.X.(*ssa.Call); ok && isBuiltin(&l.Call, "len") {
+		one, other := bo.Y, bo.X
+		if k, isK := constInt(bo.X); isK && k == 1 {
+			one, other = bo.X, bo.Y // 1 + len(…)
+		}
+		if k, ok := constInt(one); ok && k == 1 {
+			if l, ok := other.(*ssa.Call); ok && isBuiltin(&l.Call, "len") {
 				arg := l.Call.Args[0]
 				if _, p := c.fieldPath(c.resolve(arg)); len(p) == 1 {
 					_, isMap := arg.Type().Underlying().(*types.Map)
